@@ -9,7 +9,7 @@ import ast
 import sympy as sp
 from ..core import AnalysisError, norm, dotted, calls_in, walk_no_nested
 from ..alg import Sym, is_zero, Unsupported
-from ..flow import lexically_inside
+from ..flow import lexically_inside, Flow
 
 SCORES = "typhon/retrieval/scores.py"
 EXPECT = {"C19.exact": 5, "C19.pinball": 4, "C19.shapes": 1, "C19.mape": 6, "C19.bias": 6}
@@ -165,12 +165,14 @@ def rule_shapes(ctx):
             raises_value = any(isinstance(x, ast.Raise) and x.exc is not None and "ValueError" in norm(x.exc)
                                for h in st.handlers for s in h.body for x in ast.walk(s))
             # the requested shape must pin the number of rows to that of the estimates: (n, 1), n = y_tau rows
-            shape = [norm(a) for a in c.args]
-            flow_n = None
-            for s2 in f.body:
-                if isinstance(s2, ast.Assign) and isinstance(s2.targets[0], ast.Name) and norm(s2.value) == "%s.shape[0]" % ytau:
-                    flow_n = s2.targets[0].id
-            pinned = len(shape) == 2 and shape[1] == "1" and shape[0] in (flow_n, "%s.shape[0]" % ytau)
+            sargs = list(c.args[0].elts) if len(c.args) == 1 and isinstance(c.args[0], (ast.Tuple, ast.List)) else list(c.args)
+            sflow = Flow(f)
+            shape = [str(norm(sflow.resolve(a, at=c, depth=2, stop=(ytau, ytest, taus)))) for a in sargs]
+            rows_of_estimates = ("%s.shape[0]" % ytau, "len(%s)" % ytau, "np.shape(%s)[0]" % ytau)
+            if len(shape) == 2 and shape[1] == "1" and shape[0] not in rows_of_estimates and shape[0] not in ("-1",) \
+                    and not (len(sargs) == 2 and isinstance(sargs[0], ast.Constant)):
+                raise AnalysisError("quantile_score: requested row count %s of y_test not understood" % shape[0])
+            pinned = len(shape) == 2 and shape[1] == "1" and shape[0] in rows_of_estimates
             fact = "try: %s.reshape(%s) except -> ValueError: %s" % (ytest, ", ".join(shape), raises_value)
             ok = raises_value and pinned
     ctx.ob("quantile_score.shape_guard", ok, fact,
